@@ -146,6 +146,10 @@ def decipher_all(decipher: DecipherCallable, objid: int, genno: int, x: object) 
     elif isinstance(x, dict):
         for k, v in x.items():
             x[k] = decipher_all(decipher, objid, genno, v)
+    elif isinstance(x, PDFStream) and x.attrs.get("Type") is not LITERAL_XREF:
+        # The strings of a stream dictionary are encrypted like any other
+        # string of the object; the data itself is handled in PDFStream.decode.
+        x.attrs = decipher_all(decipher, objid, genno, x.attrs)
     return x
 
 
